@@ -328,7 +328,7 @@ def gen_decoder(ctx, rng, tier):
     bases = []
     for ty in L.TYPES:
         for ce in L.CODEC_LETTERS:
-            for n in (2, 40, 200, 900):
+            for n in (2, 40, 200, 900) + ((4094, 4095, 5000) if ty in (L.T_NULL, L.T_PRIVATE, L.T_TXT) and ce == ord('R') else ()):
                 pl = bytes([0x80, rng.randrange(256)]) + bytes(rng.randrange(256) for _ in range(n))
                 dg = L.data_reply(rng.randrange(65536), rng.choice(b'pP3v'), ty, pl, denc=ce)
                 add('carrier:%s/%s' % (L.TYPE_NAMES[ty], chr(ce)), dg)
@@ -1097,11 +1097,17 @@ def check(rep):
         replay.setdefault('kind', 'input')
         replay['occurrences'] = findings.counts.get(key, 1)
         rep.add_violation(key, what, replay)
-    if not rep.violations:
-        ctx.report_broken()
-    elif ctx.broken:
-        for k, t in ctx.broken:
-            rep.notes.append('%s: %s' % (k, t[:400]))
+    # a broken proof / correspondence is reported unless a concrete finding of the same stream explains it
+    # (findings of the handshake streams, which have no model, explain nothing about the decoder / tunnel diff)
+    explained = {findings.items[k][1].get('stream') for k in findings.order
+                 if not any(f.get('property') == rep.id and f.get('status') == 'known' and f.get('key') == k
+                            for f in vlib.known_findings().get('findings', []))}
+    for key, text in ctx.broken:
+        stream = key.split(':')[1] if key.startswith('correspondence:') else None
+        if stream is not None and stream in explained:
+            rep.notes.append('%s: %s' % (key, text[:400]))
+            continue
+        rep.add_violation(key, text, dict(kind='proof' if key == 'proof' else 'correspondence', broken=text), concrete=False)
     return rep
 
 
